@@ -545,18 +545,52 @@ _C08M = ["pruneEmptyNodeFromList", "addExpectedCall", "hasCallsOutOfOrder", "siz
          "onlyKeepExpectationsOnObject", "removeFirstFinalizedMatchingExpectation", "getFirstMatchingExpectation",
          "removeFirstMatchingExpectation", "deleteAllExpectationsAndClearList", "resetActualCallMatchingState", "wasPassedToObject",
          "parameterWasPassed", "outputParameterWasPassed", "hasUnmatchingExpectationsBecauseOfMissingParameters"]
-HEAP_RECORDS["C08L"] = [["MockExpectedCallsListNode", MEL], ["MockExpectedCallsList", MEL, "own"]]
-HEAP_GROUPS["C08L"] = [dict(file=MEL, name="MockExpectedCallsList::" + n, coq=_L + n, calls=_C08L, ghosts=_G08L,
-                            opaque_classes=["SimpleString", "MockNamedValue"], new_event="LNew {p}", delete_event="LDelete {p}",
-                            delete_opaque_event="LDeleteCall {p}", **{"class": "MockExpectedCallsList"}) for n in _C08M]
+MAC = "src/CppUTestExt/MockActualCall.cpp"
+_A = "src_acall_"
+_C08AM = ["setState", "setName", "isFulfilled", "hasFailed", "failTest", "callHasSucceeded", "completeCallWhenMatchIsFound",
+          "discardCurrentlyMatchingExpectations", "withName", "checkInputParameter", "checkOutputParameter", "onObject", "checkExpectations"]
+_C08A = dict(_C08L)
+_C08A.update({"MockExpectedCallsList::" + n: {"fn": _L + n, "method": True} for n in _C08M})
+_C08A.update({"MockCheckedActualCall::" + n: {"fn": _A + n, "method": True} for n in _C08AM})
+_C08A.update({
+    "MockCheckedActualCall::failTest": {"fn": _A + "failTest", "method": True, "args": []},       # the failure object is the ghost event before it
+    "MockFailureReporter::failTest": {"event": "LReport"},
+    "MockCheckedActualCall::getName": {"recv_field": ["MockCheckedActualCall", "functionName_"]},
+    "MockNamedValue::getName": {"fun": "value_name", "recv": True},
+    "MockCheckedActualCall::getTest": "0",
+    "MockCheckedActualCall::copyOutputParameters": {"event": "LCopyOutputs {0}", "args": [0]},
+    "callWasMade": {"event": 'LTellArg "callWasMade" {r} {0}', "recv": True, "args": [0]},
+    "finalizeActualCallMatch": {"event": 'LTell "finalizeActualCallMatch" {r}', "recv": True},
+    "operator=": {"assign_opaque": True}, "fail": {"abort": "LAbort"}, "getCurrent": "0",
+    "MockUnexpectedCallHappenedFailure": {"ctor_event": 'LFailure "MockUnexpectedCallHappenedFailure"', "eval_args": []},
+    "MockUnexpectedInputParameterFailure": {"ctor_event": 'LFailure "MockUnexpectedInputParameterFailure"', "eval_args": []},
+    "MockUnexpectedOutputParameterFailure": {"ctor_event": 'LFailure "MockUnexpectedOutputParameterFailure"', "eval_args": []},
+    "MockUnexpectedObjectFailure": {"ctor_event": 'LFailure "MockUnexpectedObjectFailure"', "eval_args": []},
+    "MockExpectedParameterDidntHappenFailure": {"ctor_event": 'LFailure "MockExpectedParameterDidntHappenFailure"', "eval_args": []},
+    "MockExpectedObjectDidntHappenFailure": {"ctor_event": 'LFailure "MockExpectedObjectDidntHappenFailure"', "eval_args": []}})
+HEAP_RECORDS["C08L"] = [["MockExpectedCallsListNode", MEL], ["MockExpectedCallsList", MEL, "own"], ["MockCheckedActualCall", MAC, "own"]]
+HEAP_GROUPS["C08L"] = (
+    [dict(file=MEL, name="MockExpectedCallsList::" + n, coq=_L + n, calls=_C08L, ghosts=_G08L,
+          opaque_classes=["SimpleString", "MockNamedValue"], new_event="LNew {p}", delete_event="LDelete {p}",
+          delete_opaque_event="LDeleteCall {p}", **{"class": "MockExpectedCallsList"}) for n in _C08M] +
+    [dict(file=MAC, name="MockCheckedActualCall::" + n, coq=_A + n, calls=_C08A, ghosts=_G08L, enums=["ActualCallState"],
+          opaque_classes=["SimpleString", "MockNamedValue"], returns_self=True, **{"class": "MockCheckedActualCall"}) for n in _C08AM])
 HEAP_HEADERS["C08L"] = ("From Coq Require Import String.\nFrom CppUVerif Require Import lib.CSem lib.CMem lib.CHeap.\nLocal Open Scope Z_scope.\n"
                         "(* translated by tools/cxx2heap.py: the expectation list of the mocking engine, MockExpectedCallsList (every member except the "
-                        "constructor, the destructor and the three ...ToString reports). A node is a heap block (expectedCall_, next_); an expectation "
+                        "constructor, the destructor and the three ...ToString reports), and the matching steps of an actual call, MockCheckedActualCall "
+                        "(withName, checkInputParameter, checkOutputParameter, onObject, checkExpectations and the functions they are made of). "
+                        "A node is a heap block (expectedCall_, next_); an expectation "
                         "(a pointer to MockCheckedExpectedCall) is an opaque integer that identifies it (0 = NULL), a name / a named value / an object pointer "
                         "likewise. Every question the list asks an expectation is answered by the oracle stream `answers` and recorded, with the "
-                        "expectation asked, the argument and the answer, in the ghost events LAsk / LAskArg; what the list tells an expectation is the "
-                        "event LTell / LTellArg; new / delete of a node are LNew / LDelete (the node constructor's initialisers are read from the source: "
-                        "expectedCall_ := the argument, next_ := NULL); delete of an expectation is LDeleteCall. The list's own virtual members "
-                        "addExpectedCall and pruneEmptyNodeFromList are called directly (no class of the repository overrides them) *)\n"
+                        "expectation asked, the argument and the answer, in the ghost events LAsk / LAskArg; what the list or the actual call tells an "
+                        "expectation is the event LTell / LTellArg; new / delete of a node are LNew / LDelete (the node constructor's initialisers are read "
+                        "from the source: expectedCall_ := the argument, next_ := NULL); delete of an expectation is LDeleteCall. The list's own virtual members "
+                        "addExpectedCall and pruneEmptyNodeFromList are called directly (no class of the repository overrides them). In the actual call: "
+                        "constructing a failure object is the event LFailure <class>, handing it to the reporter LReport, the FAIL of the impossible branch "
+                        "LAbort; copyOutputParameters(e) is the event LCopyOutputs e (not translated); the name of a named value is the Section variable "
+                        "value_name; a member function returning *this returns nothing here *)\n"
                         "Inductive lev := LAsk (q : string) (e : Z) (ans : Z) | LAskArg (q : string) (e : Z) (arg : Z) (ans : Z) | LTell (what : string) (e : Z) | "
-                        "LTellArg (what : string) (e : Z) (arg : Z) | LNew (p : hptr) | LDelete (p : hptr) | LDeleteCall (e : Z).\n")
+                        "LTellArg (what : string) (e : Z) (arg : Z) | LNew (p : hptr) | LDelete (p : hptr) | LDeleteCall (e : Z) | "
+                        "LFailure (cls : string) | LReport | LAbort | LCopyOutputs (e : Z).\n"
+                        "Section ActualCall.\nVariable value_name : Z -> Z.\n")
+HEAP_FOOTERS["C08L"] = "\nEnd ActualCall.\n"
